@@ -146,7 +146,24 @@ Proof.
   - replace (1 - 1)%nat with 0%nat by lia. apply (approx_exact_le u). rewrite Rabs_R1. lra.
 Qed.
 
-(* evaluate_multi_barycentric as evaluate_multi calls it (lambda1 = fl(1 - s), lambda2 = s), both branches of the switch *)
+(* evaluate_multi_barycentric with an approximate lambda1 and an exact lambda2, both branches of the switch *)
+Theorem eval_bary_rounding_gen k1 l1c l1a l1m l2 thr v :
+  approx k1 l1c l1a l1m -> (2 <= length v)%nat -> (Z.of_nat (length v) < 2 ^ 53)%Z -> binom_exact_upto thr = true ->
+  approx ((k1 + 2) * (length v - 1) + 2)
+         (eval_bary Fl thr v l1c l2) (bernstein ROps v l1a l2) (bernstein ROps (map Rabs v) l1m (Rabs l2)).
+Proof.
+  intros H1 Hlen Hsz Hthr.
+  unfold eval_bary. destruct (Nat.ltb thr (length v)) eqn:Et.
+  - assert (Hne : v <> []) by (destruct v; [cbn [length] in Hlen; lia|congruence]).
+    pose proof (eval_dc_rounding u Hu fl fl_spec k1 0 _ _ _ l2 l2 (Rabs l2) v H1 (approx_exact u l2) Hne) as Hd.
+    apply (approx_weaken u Hu ((length v - 1) * (Nat.max k1 0 + 2))); [rewrite Nat.max_0_r; lia|exact Hd].
+  - apply Nat.ltb_ge in Et.
+    assert (Hb : binom_exact_for_degree (length v - 1) = true).
+    { unfold binom_exact_upto in Hthr. rewrite forallb_forall in Hthr. apply Hthr. apply in_seq. lia. }
+    exact (eval_vs_rounding k1 _ _ _ l2 v H1 Hlen Hsz Hb).
+Qed.
+
+(* as evaluate_multi calls it (lambda1 = fl(1 - s), lambda2 = s) *)
 Theorem eval_bary_rounding thr v s :
   (2 <= length v)%nat -> (Z.of_nat (length v) < 2 ^ 53)%Z -> binom_exact_upto thr = true ->
   Rabs (eval_bary Fl thr v (osub Fl 1 s) s - bernstein ROps v (1 - s) s)
@@ -158,15 +175,7 @@ Proof.
     - replace (1 - s - (1 - s)) with 0 by lra. rewrite Rabs_R0. rewrite g_0. lra.
     - lra.
     - simpl. lra. }
-  unfold eval_bary. destruct (Nat.ltb thr (length v)) eqn:Et.
-  - assert (Hne : v <> []) by (destruct v; [cbn [length] in Hlen; lia|congruence]).
-    pose proof (eval_dc_rounding u Hu fl fl_spec 1 0 _ _ _ s s (Rabs s) v H1 (approx_exact u s) Hne) as Hd.
-    apply (approx_weaken u Hu _ (3 * (length v - 1) + 2)) in Hd; [|cbn [Nat.max]; lia].
-    destruct Hd as [Hd _]. exact Hd.
-  - apply Nat.ltb_ge in Et.
-    assert (Hb : binom_exact_for_degree (length v - 1) = true).
-    { unfold binom_exact_upto in Hthr. rewrite forallb_forall in Hthr. apply Hthr. apply in_seq. lia. }
-    pose proof (eval_vs_rounding 1 _ _ _ s v H1 Hlen Hsz Hb) as [Hv _].
-    replace (3 * (length v - 1) + 2)%nat with ((1 + 2) * (length v - 1) + 2)%nat by lia. exact Hv.
+  pose proof (eval_bary_rounding_gen 1 _ _ _ s thr v H1 Hlen Hsz Hthr) as [Hv _].
+  replace (3 * (length v - 1) + 2)%nat with ((1 + 2) * (length v - 1) + 2)%nat by lia. exact Hv.
 Qed.
 End Fl.
